@@ -11,7 +11,7 @@ class GenerateError(Exception):
 
 CPP_RUNTIME_NAMES = frozenset(
     [t + w + "_t" for t in ("int", "uint") for w in ("8", "16", "32", "64")] +
-    ["size_t", "native", "little", "big", "indent", "prophy", "std"]
+    ["size_t", "native", "little", "big", "indent", "prophy", "std", "encoded_byte_size"]
 )
 
 
